@@ -118,7 +118,7 @@ func cmdCheck(args []string) int {
 		return 2
 	}
 	loadS := time.Since(t0).Seconds()
-	var sitesNow []string
+	var sitesNow, freshSites []string
 	if cfg.Sites != nil {
 		sitesNow = nondetSites(l)
 		known := map[string]bool{}
@@ -131,12 +131,7 @@ func cmdCheck(args []string) int {
 				fresh = append(fresh, x)
 			}
 		}
-		if len(fresh) > 0 {
-			for _, x := range fresh {
-				fmt.Println("ERROR new source of nondeterminism not covered by a harness:", x)
-			}
-			return 2
-		}
+		freshSites = fresh // reported at the end, unless a harness already shows a violation
 	}
 
 	type agg struct {
@@ -488,6 +483,14 @@ func cmdCheck(args []string) int {
 	}
 	if rc == 1 {
 		return 1
+	}
+	if len(freshSites) > 0 {
+		// a map range, goroutine, select or clock read that is not in the reviewed list and that no harness showed to
+		// matter: the check cannot vouch for it (extend a harness over it, then add it to the list)
+		for _, x := range freshSites {
+			fmt.Println("ERROR new source of nondeterminism not covered by a harness:", x)
+		}
+		return 2
 	}
 	if len(mismatch) > 0 {
 		for _, m := range mismatch {
